@@ -219,7 +219,8 @@ def sched_case(
                            seq_rate=seq_rate, dep_kinds=kinds, wide=wide, reuse=reuse, n_params=n_params,
                            mark_roots=not sel_on, index_rate=index_rate, bad_index_rate=bad_index_rate,
                            n_setup=draw(st.integers(0, n_setup)) if n_setup else 0,
-                           n_debug=draw(st.integers(0, n_debug)) if n_debug else 0))
+                           n_debug=draw(st.integers(0, n_debug)) if n_debug else 0,
+                           split_rate=0.3 if flags else 0.0))
     sites = [s["site"] for s in P["body"]]
     fn_uses: Dict[str, int] = {}
     for s in P["body"]:
@@ -240,7 +241,7 @@ def sched_case(
             if a is not None and a[0] == "v":
                 prod = [x for x in P["body"] if x["out"] == a[1]][0]
                 f = P["fns"][prod["fn"]]
-                if not f.get("setup") and f.get("kind") not in ("tup", "dict"):
+                if not f.get("setup") and f.get("kind") not in ("tup", "dict") and not f.get("pair"):
                     f["kind"] = "const"
                     f["val"] = draw(st.sampled_from([0, 1, "", "x", None, True, False, {"T": []}, {"T": [0]}]))
     if n_params:
